@@ -71,6 +71,7 @@ func (h *history) addOutgoing(
 		SSRC:               ssrc,
 		SequenceNumber:     h.counter,
 		RTPSequenceNumber:  rtpSequenceNumber,
+		IsTWCC:             isTWCC,
 		TWCCSequenceNumber: twccSequenceNumber,
 		Size:               size,
 		Departure:          departure,
@@ -183,6 +184,7 @@ func (h *history) delete(p *PacketReport) {
 	if counter, ok := h.ssrcSeqNrToCounter[key]; ok && counter == p.SequenceNumber {
 		delete(h.ssrcSeqNrToCounter, key)
 	}
+	delete(h.packets, p.SequenceNumber)
 }
 
 // cleanBefore removes all entries in the interval [h.cleanBefore, counter).
